@@ -216,5 +216,10 @@ def build_dataclass(term, reg: Registry):
     dc_kwargs = {}
     if get_opt(cfg, "frozen", False):
         dc_kwargs["frozen"] = True
-    cls = dataclasses.dataclass(**dc_kwargs)(cls)
-    return cls
+    if get_opt(cfg, "slots", False):
+        dc_kwargs["slots"] = True
+    made = dataclasses.dataclass(**dc_kwargs)(cls)
+    if made is not cls:
+        # slots=True: dataclass() returns a NEW class object (the mixin's __init_subclass__ ran for it too)
+        reg._register(made, name, term, module=dmod)
+    return made
